@@ -11,8 +11,8 @@ pub const CHAINS: [&str; 14] = [
     "héllo-chain",
     "",
     // two long names that differ only in their last character
-    "a-very-long-chain-name-that-goes-well-beyond-sixty-four-bytes-of-utf8-text-A",
-    "a-very-long-chain-name-that-goes-well-beyond-sixty-four-bytes-of-utf8-text-B",
+    "a-very-long-chain-name-that-goes-well-beyond-sixty-four-bytes-of-utf8-text-and-on-and-on-past-one-hundred-and-twenty-eight-bytes-so-that-no-key-size-threshold-is-left-unvisited-A",
+    "a-very-long-chain-name-that-goes-well-beyond-sixty-four-bytes-of-utf8-text-and-on-and-on-past-one-hundred-and-twenty-eight-bytes-so-that-no-key-size-threshold-is-left-unvisited-B",
     // spellings that a normalising comparison would identify with "ethereum" / "avalanche" / "héllo-chain"
     "Ethereum",
     "AVALANCHE",
@@ -23,7 +23,7 @@ pub const CHAINS: [&str; 14] = [
 ];
 pub const HUB_CHAIN: &str = "axelar";
 // the empty string is last in both pools; everything before it is acceptable metadata
-pub const NAMES: [&str; 9] = [
+pub const NAMES: [&str; 10] = [
     "Test Token",
     "t",
     "Unicode Token 🪙",
@@ -32,6 +32,7 @@ pub const NAMES: [&str; 9] = [
     " lead and trail ",
     "a token name of exactly 32 bytes",
     "a token name of thirty-three bytes",
+    "a token name that is longer than one hundred and twenty-eight bytes, which is more than any sensible token would call itself, but it is what it is!",
     "",
 ];
 pub const SYMS: [&str; 8] = ["TST", "T", "UNI🔣", "PAD\0", "\0", "sp ace", "SYMBOL-OF-EXACTLY-THIRTY-TWO-BYT", ""];
